@@ -8,16 +8,18 @@ use std::ops::{Add, Mul};
 
 use std::hash::{Hash, Hasher};
 
-// `format!` content and `log` output are irrelevant to every property decided here:
-// the macros are shadowed so that verbatim bodies containing them are accepted.
-macro_rules! format { ($($t:tt)*) => { verif_opaque_string() } }
-macro_rules! println { ($($t:tt)*) => { () } }
-macro_rules! print { ($($t:tt)*) => { () } }
-macro_rules! trace { ($($t:tt)*) => { () } }
-macro_rules! debug { ($($t:tt)*) => { () } }
-macro_rules! info { ($($t:tt)*) => { () } }
-macro_rules! warn { ($($t:tt)*) => { () } }
-macro_rules! error { ($($t:tt)*) => { () } }
+// The text produced by `format!` and the `log` output are irrelevant to every property decided here: the macros are
+// shadowed so that verbatim bodies containing them are accepted. Their ARGUMENT expressions are still evaluated (so an
+// overflow, an index or an `unwrap` inside an argument is an obligation like anywhere else); only the formatting itself
+// (the `Display`/`Debug` implementations of the arguments) is ASSUMED not to panic.
+macro_rules! format { ($fmt:expr $(, $arg:expr)* $(,)?) => { { $( let _ = &$arg; )* verif_opaque_string() } } }
+macro_rules! println { ($fmt:expr $(, $arg:expr)* $(,)?) => { { $( let _ = &$arg; )* } } }
+macro_rules! print { ($fmt:expr $(, $arg:expr)* $(,)?) => { { $( let _ = &$arg; )* } } }
+macro_rules! trace { ($fmt:expr $(, $arg:expr)* $(,)?) => { { $( let _ = &$arg; )* } } }
+macro_rules! debug { ($fmt:expr $(, $arg:expr)* $(,)?) => { { $( let _ = &$arg; )* } } }
+macro_rules! info { ($fmt:expr $(, $arg:expr)* $(,)?) => { { $( let _ = &$arg; )* } } }
+macro_rules! warn { ($fmt:expr $(, $arg:expr)* $(,)?) => { { $( let _ = &$arg; )* } } }
+macro_rules! error { ($fmt:expr $(, $arg:expr)* $(,)?) => { { $( let _ = &$arg; )* } } }
 
 verus! {
 
